@@ -156,14 +156,80 @@ def leanchecker(modules):
 
 # ---------------------------------------------------------------------------------- Rust side
 
+CLIOPTS_BUILD_ERROR = None
+
+
+CLIOPTS_MAIN = '''//! GENERATED by vlib/core.py (write_cli_mods) before every build of the harness. Do not edit.
+//! The option layer of the `bita` command line, in process: the sources of the binary crate are compiled into
+//! this harness binary as they are in /repo's working tree (one `#[path]` module per `mod x;` of /repo/src/main.rs),
+//! so `cli::parse_opts` and `string_utils::*` can be called directly.  A separate binary, so that a change to the
+//! command-line crate that this arrangement cannot follow (say, a new crate-root item) affects only the suites that
+//! need it.   usage: cliopts opts <quick|thorough>
+
+use bita_verif_harness as h;
+
+@@MODS@@
+pub const PKG_NAME: &str = "bita";
+pub const PKG_VERSION: &str = "verif";
+
+mod opts;
+
+fn main() {
+    let args: Vec<String> = std::env::args().collect();
+    if args.len() < 3 || args[1] != "opts" {
+        eprintln!("usage: cliopts opts <quick|thorough>");
+        std::process::exit(2);
+    }
+    let thorough = args[2] == "thorough";
+    let seed = h::seed_from_env();
+    h::silence_panics();
+    let rt = tokio::runtime::Builder::new_multi_thread().worker_threads(2).enable_all().build().unwrap();
+    rt.block_on(opts::opts(seed, thorough));
+}
+'''
+
+
+def write_cli_mods():
+    """harness/src/bin/cliopts/main.rs: one `#[path]` module per `mod x;` of /repo/src/main.rs."""
+    import re
+    try:
+        main_rs = open(os.path.join(REPO, "src", "main.rs")).read()
+    except OSError:
+        main_rs = ""
+    names = re.findall(r"^(?:pub )?mod (\w+);", main_rs, re.M)
+    lines = []
+    for n in names:
+        f = os.path.join(REPO, "src", n + ".rs")
+        if not os.path.exists(f):
+            f = os.path.join(REPO, "src", n, "mod.rs")
+        lines += ["#[allow(dead_code, unused_imports, unused_macros, unused_variables)]", '#[path = "%s"]' % f, "mod %s;" % n]
+    content = CLIOPTS_MAIN.replace("@@MODS@@", "\n".join(lines))
+    path = os.path.join(VERIF, "harness", "src", "bin", "cliopts", "main.rs")
+    try:
+        if open(path).read() == content:
+            return
+    except OSError:
+        pass
+    with open(path, "w") as fh:
+        fh.write(content)
+
+
 def cargo_build_harness():
+    global CLIOPTS_BUILD_ERROR
     lock_src = os.path.join(REPO, "Cargo.lock")
     lock_dst = os.path.join(VERIF, "harness", "Cargo.lock")
     if not os.path.exists(lock_dst):
         import shutil
         shutil.copy(lock_src, lock_dst)
-    rc, out, dt = run(["cargo", "build", "--offline", "--bins"], cwd=os.path.join(VERIF, "harness"),
+    write_cli_mods()
+    rc, out, dt = run(["cargo", "build", "--offline", "--bin", "l1"], cwd=os.path.join(VERIF, "harness"),
                       env=env_offline(), timeout=3600)
+    if rc == 0:
+        # the binary that compiles the command-line crate's sources in: a failure here concerns only the suites that use it
+        rc2, out2, dt2 = run(["cargo", "build", "--offline", "--bin", "cliopts"], cwd=os.path.join(VERIF, "harness"),
+                             env=env_offline(), timeout=3600)
+        CLIOPTS_BUILD_ERROR = out2[-3000:] if rc2 != 0 else None
+        dt += dt2
     return rc, out, dt
 
 
